@@ -241,7 +241,7 @@ func runCaseB(cb CaseB, sample bool) {
 	if len(cb.Masks) > 0 {
 		masks = strings.Join(cb.Masks, ",")
 	}
-	lines := or.AskUntil(fmt.Sprintf("case %d %d %d %s %s %s", k, parity, cb.Local, tohex(msg), strings.Join(shs, ","), masks), "end")
+	lines := or.AskUntil(fmt.Sprintf("case %d %d %d %d %s %s %s", k, parity, cb.Local, cb.Nonce, tohex(msg), strings.Join(shs, ","), masks), "end")
 	get := func(pre string) string {
 		for _, l := range lines {
 			if strings.HasPrefix(l, pre+" ") {
